@@ -1,2 +1,2 @@
-/* fid: incdec-pointer-incomplete (fixed 93895c0); msg: pointer operand of '\+\+' operator must be to complete object type */
+/* fid: incdec-pointer-incomplete (fixed df57034); msg: pointer operand of '\+\+' operator must be to complete object type */
 void f(void *p){ p++; }
